@@ -4,23 +4,28 @@ namespace MindsVerif.Route
 
 /-! ### stripping -/
 
-def cutId (db : Name) (x : List Name × Bool) : List Name × Bool := (stripParts db x.1 x.2, x.2)
+def cutId (db : Name) (names : List Name) (x : List Name × Bool × Bool) : List Name × Bool × Bool :=
+  (stripPartsN db names x.2.2 x.1 x.2.1, x.2.1, x.2.2)
+
+theorem stripPartsN_nil (db : Name) (isTab : Bool) (parts : List Name) (star : Bool) :
+    stripPartsN db [] isTab parts star = stripParts db parts star := by
+  simp [stripPartsN, keepsLocal]
 
 mutual
-theorem visitedIdents_strip (db : Name) (par : Par) (s : Slot) :
-    ∀ n : Node, visitedIdents (strip db par s n) = (visitedIdents n).map (cutId db)
+theorem visitedIdents_strip (db : Name) (names : List Name) (par : Par) (s : Slot) :
+    ∀ n : Node, visitedIdents s (strip db names par s n) = (visitedIdents s n).map (cutId db names)
   | .ident parts star alias => by simp [strip, visitedIdents, stripIdent, cutId]
   | .leaf => by simp [strip, visitedIdents]
   | .native => by simp [strip, visitedIdents]
-  | .func u ks => by simp [strip, visitedIdents, visitedIdentsKids_strip db par ks]
-  | .scope p ks => by simp [strip, visitedIdents, visitedIdentsKids_strip db p ks]
-  | .plain ks => by simp [strip, visitedIdents, visitedIdentsKids_strip db par ks]
-theorem visitedIdentsKids_strip (db : Name) (par : Par) :
-    ∀ ks : Kids, visitedIdentsKids (stripKids db par ks) = (visitedIdentsKids ks).map (cutId db)
+  | .func u ks => by simp [strip, visitedIdents, visitedIdentsKids_strip db names par ks]
+  | .scope p ks => by simp [strip, visitedIdents, visitedIdentsKids_strip db names p ks]
+  | .plain ks => by simp [strip, visitedIdents, visitedIdentsKids_strip db names par ks]
+theorem visitedIdentsKids_strip (db : Name) (names : List Name) (par : Par) :
+    ∀ ks : Kids, visitedIdentsKids (stripKids db names par ks) = (visitedIdentsKids ks).map (cutId db names)
   | .nil => by simp [stripKids, visitedIdentsKids]
   | .cons s n ks => by
     cases s <;>
-      simp [stripKids, visitedIdentsKids, visitedIdents_strip db par _ n, visitedIdentsKids_strip db par ks]
+      simp [stripKids, visitedIdentsKids, visitedIdents_strip db names par _ n, visitedIdentsKids_strip db names par ks]
 end
 
 /-- the identifier starts with two parts that both spell the integration name -/
@@ -53,16 +58,33 @@ theorem not_qualified_after_cut (db : Name) (parts : List Name) (star : Bool)
       simp only [h1, true_and] at hc
       simp [hc]
 
+theorem not_qualified_after_cutN (db : Name) (names : List Name) (isTab : Bool) (parts : List Name) (star : Bool)
+    (h : doubleQual db parts star = false) (hk : keepsLocal db names isTab parts star = false) :
+    qualifiedBy db (stripPartsN db names isTab parts star) star = false := by
+  simp only [stripPartsN, hk]
+  exact not_qualified_after_cut db parts star h
+
+theorem keepsLocal_of_not_mem (db : Name) (names : List Name) (isTab : Bool) (parts : List Name) (star : Bool)
+    (h : db ∉ names) : keepsLocal db names isTab parts star = false := by
+  simp [keepsLocal, h]
+
 /-- output names: an identifier target keeps its output column name -/
-theorem outName_stripIdent (db : Name) (par : Par) (s : Slot) (parts : List Name) (alias : Option (List Name)) :
-    outName (stripIdent db par s parts false alias).1 (stripIdent db par s parts false alias).2 = outName parts alias := by
-  have hl : (stripParts db parts false).getLast? = parts.getLast? := by
+theorem outName_stripIdent (db : Name) (names : List Name) (par : Par) (s : Slot) (parts : List Name)
+    (alias : Option (List Name)) :
+    outName (stripIdent db names par s parts false alias).1 (stripIdent db names par s parts false alias).2 =
+      outName parts alias := by
+  have hl0 : (stripParts db parts false).getLast? = parts.getLast? := by
     match parts with
     | [] => rfl
     | [p] => simp [stripParts, identLen]
     | p :: q :: r =>
       simp only [stripParts]
       split <;> simp [List.getLast?_cons_cons]
+  have hl : ∀ b, (stripPartsN db names b parts false).getLast? = parts.getLast? := by
+    intro b
+    unfold stripPartsN; split
+    · rfl
+    · exact hl0
   cases alias with
   | some a => cases par <;> cases s <;> simp [stripIdent, outName]
   | none =>
